@@ -127,7 +127,26 @@ def run_subtree(item):
                 res2 = simnet.execute(scn, res.choices, base)
 
                 if res2.log != res.log or res2.choices != res.choices or res2.wire != res.wire:
-                    st['nondet'] = 'default schedule replayed with different observations'
+                    # Two runs of one schedule differ.  The harness owns every source of nondeterminism (selftest, and this very
+                    # comparison on every root of every run on the unchanged tree), so the code under test carries state from one
+                    # run to the next.  That is reported as a violation only if the property's oracle rejects one of the two real
+                    # executions (replayed by running the schedule twice in one process); otherwise it stays a harness error.
+                    viols2 = oracle(scn, res2)[0] if res2.choices == res.choices else []
+
+                    for v in viols2:
+                        st['viol'].append({'signature': v['signature'], 'what': v['what'] + '  [second run of the same schedule in one process: state is carried between runs]',
+                                           'choices': res2.choices, 'cost': sum(p[2][p[1]][0] for p in res2.points), 'base': base, 'scn': _clean(scn),
+                                           'oracle': item['oracle'], 'detail': v.get('detail'), 'repeat': 2})
+
+                    if not viols2 and not viols:
+                        st['nondet'] = 'default schedule replayed with different observations'
+                    else:
+                        st['carried_state'] = True
+
+                        for v in st['viol']:
+                            v['repeat'] = 2
+
+                        break       # later executions of this scenario would be judged against polluted state
 
                 st['sample'] = {'scenario': scn.get('name'), 'base': base, 'choices': res.choices[:40],
                                 'n_choice_points': len(res.points), 'steps': res.nsteps, 'virtual_ms': res.now,
@@ -212,7 +231,8 @@ def explore(rep, part, scenarios, bound, bases, oracle, budget_s=None, split=Tru
 
     for sig, v in sorted(viols.items()):
         rep.violation(sig, v['what'], {'kind': 'e1', 'scn': v['scn'], 'base': v['base'], 'choices': v['choices'],
-                                       'oracle': v['oracle'], 'detail': v['detail'], 'deviations': v['cost']})
+                                       'oracle': v['oracle'], 'detail': v['detail'], 'deviations': v['cost'],
+                                       **({'repeat': v['repeat']} if v.get('repeat') else {})})
 
     rep.add('evaluations', tot['execs'])
     rep.add('transitions', tot['trans'])
